@@ -157,7 +157,7 @@ def run(ctx):
         universe_rule = "dedicated bases (all sites, Prelude included) + every single template in the harnesses start and %s (seeded)" % extra
         min_cases, min_run = 8000, 700
     else:
-        nshards = 48
+        nshards = 64
         env = {"FAMILY": "dedicated,singles,pairs", "HARNESSES": "all", "NSHARDS": nshards, "SHARD": seed % nshards}
         universe_rule = "dedicated bases + every single template in every harness + shard %d of %d of the pairwise nesting (seeded)" % (seed % nshards, nshards)
         min_cases, min_run = 50000, 5000
